@@ -151,6 +151,17 @@ claim("C09",
       "UPDATE FROM under tsql/sqlite, tsql MERGE, MERGE INSERT clause under athena/databricks/trino, CREATE TABLE column definitions)",
       "DESIGN.md section 4 (C09)")
 
+claim("C07",
+      "REDUCED SCOPE. case: per corpus statement every letter of every keyword, function name and unquoted identifier gets a free case bit "
+      "per occurrence (plus <=4 free lower-case names); z3 decides over all case assignments that tables and named-column pairs equal the "
+      "plain run's. quote: twin templates with every table-ish identifier (or only the schema parts of 2/3-part names) quoted in the dialect's "
+      "style vs unquoted, lower-case bodies free. layout: minimal rendering vs one noise-saturated rendering (newline + block comment with ';' "
+      "+ line comment at every blank). Counterexamples are rendered to two SQL texts and replayed on the unmodified library. NOT claimed: "
+      "quantification over WHERE whitespace/comments are inserted - positions change the parse and cannot be solver variables; extra "
+      "trailing semicolons are C05's.",
+      TRUST + "; tree shape assumed independent of letter case (re-checked per witness)",
+      "DESIGN.md section 4 (C07)")
+
 ALL = ["C%02d" % i for i in range(1, 19)]
 
 
